@@ -1,0 +1,41 @@
+//go:build verif
+
+package types
+
+import (
+	sdk "github.com/cosmos/cosmos-sdk/types"
+)
+
+// Verification hooks (build tag "verif"). They are nil unless a verification
+// harness installs them; production builds use the empty versions in verif_off.go.
+var (
+	VerifTraceFn func(ctx sdk.Context, point string, kv ...string)
+	VerifFailFn  func(ctx sdk.Context, point string) error
+)
+
+// VerifTrace reports that the state machine reached `point` (after the state change).
+func VerifTrace(ctx sdk.Context, point string, kv ...string) {
+	if VerifTraceFn != nil {
+		VerifTraceFn(ctx, point, kv...)
+	}
+}
+
+// VerifFail lets a harness inject a failure at `point`.
+func VerifFail(ctx sdk.Context, point string) error {
+	if VerifFailFn != nil {
+		return VerifFailFn(ctx, point)
+	}
+	return nil
+}
+
+type verifAnteDecorator struct{}
+
+func (verifAnteDecorator) AnteHandle(ctx sdk.Context, tx sdk.Tx, simulate bool, next sdk.AnteHandler) (sdk.Context, error) {
+	VerifTrace(ctx, "TxStart")
+	return next(ctx, tx, simulate)
+}
+
+// VerifAnte prepends a decorator that reports the start of every transaction.
+func VerifAnte(decorators []sdk.AnteDecorator) []sdk.AnteDecorator {
+	return append([]sdk.AnteDecorator{verifAnteDecorator{}}, decorators...)
+}
